@@ -485,10 +485,28 @@ fn run_case<K: Kit>(ctx: &Ctx, b: &mut Batch, kit: &K, case: &PrmCase) {
     judge_query(&q, b, &road, &eval, &p2.start, &p2.goal, &res2, &ev2, "P2");
     // and back to P1: same answer as before (the query is deterministic)
     let Ok(inst3) = d.install(&case.problem, SampleMode::PlannerRng) else { return };
+    let inst3_keep = inst3.clone();
     d.set_problem_definition(inst3);
     let res3 = d.solve_ns(3_600_000_000_000, true);
     if res3 != res1 && !matches!(res3, Res::Budget | Res::Panic { .. }) {
         q.viol("same-query-different-answer", format!("{} then {}", res1.short(), res3.short()));
+    }
+    // 5b. another query towards the same goal: a problem definition that shares the goal and
+    //     space objects (same `Arc`s) of P1 and differs in its start state only
+    {
+        let mut p3 = case.problem.clone();
+        p3.start = case.start2.clone();
+        p3.extra_starts.clear();
+        let Ok(inst5) = d.install_sharing(&inst3_keep, &p3, None) else { return };
+        d.set_problem_definition(inst5);
+        if d.snapshot() != Snap::Roadmap(road.clone()) {
+            q.viol("problem-replacement-changed-roadmap", "snapshot differs after set_problem_definition (shared goal object)".into());
+        }
+        let mark = d.log.borrow().recs.len();
+        let res5 = d.solve_ns(3_600_000_000_000, true);
+        let ev5: Vec<Rec> = d.log.borrow().recs[mark..].to_vec();
+        judge_query(&q, b, &road, &eval, &p3.start, &p3.goal, &res5, &ev5, "P3-same-goal-object");
+        b.count("queries_with_shared_goal_object", 1);
     }
     if b.samples.is_empty() && n >= 3 {
         b.sample(json!({"space":case.problem.spec.describe(),"samples_drawn":drawn,"milestones":n,"links":road.iter().map(|(_,e)| e.len()).sum::<usize>()/2,"radius":r,"P1":res1.short(),"P2":res2.short()}));
